@@ -1,8 +1,7 @@
 (* C18 round 2: replace() and replace_with(None) on a receiver WITHOUT a parent (an attached root or a detached
    node).  Then replace() = detach_self + constructor (same id, changed fields) and replace_with(None) = detach():
-   no child field of an existing node is rewritten, Rank survives.  With a parent, _replace_child stores the YOUNGER
-   new node in the parent's field: Rank (child address < parent address) is false afterwards; that case needs a rank
-   function and the propagation of _reset_content_id along the ancestors - not done. *)
+   no child field of an existing node is rewritten.  With a parent, _replace_child stores the YOUNGER new node in
+   the parent's field: that case is Proofs/LegacyReplaceChild*.v (round 3; Rank is acyclicity since then). *)
 From Oak Require Import Spec.LegacySpec Spec.LegacySpec2 Proofs.LegacyProofs Proofs.LegacyInv Proofs.LegacyHeap
   Proofs.LegacyDetach Proofs.LegacyAttach Proofs.LegacyAttach2 Proofs.LegacyAttach3 Proofs.LegacyConstruct
   Proofs.LegacyConstruct2 Proofs.LegacyDup Proofs.LegacyDup2 Proofs.LegacyHistory.
@@ -121,8 +120,8 @@ Section Replace.
     split; [|split; [|split]].
     - intros i x Hx. rewrite Hreg in Hx. assert (Hxn := Hregn _ _ Hx). destruct (HR _ _ Hx) as [Hl Hi].
       split; [unfold live in *; rewrite Hlen; exact Hl|]. unfold id_of. rewrite (Hne x Hxn). exact Hi.
-    - intros b k Hk. apply in_skids in Hk. destruct Hk as [f0 [i Hk]]. rewrite Hskw in Hk.
-      apply HK. apply in_skids. eauto.
+    - apply (rank_same_kids s s'); [exact Hlen | | exact HK].
+      intros b. unfold skids, kids, kids_wf. destruct (Hsame b) as [_ [E _]]. rewrite E. reflexivity.
     - intros b Hb. destruct (Hsame b) as [_ [_ [E _]]]. rewrite E in Hb. destruct (HP b Hb) as [A B].
       split; [apply Hatt'; exact A | rewrite Hpar; exact B].
     - intros b Hlb Hab. destruct (Hatt b Hab) as [Hbn Hab0].
